@@ -29,32 +29,30 @@ def eval_clause(run, clause, env, old_state=None, fi=None, dyn_cls=None):
     return to_bool_term(v)
 
 
-def expand(run, clauses, env, dyn_cls):
-    """Expand the INV token into the invariant clauses of the dynamic class of self."""
+def expand(run, clauses, env, dyn_cls, inherited=()):
+    """Expand INV tokens into invariant clauses.  INV[.prefix][~excl]*  is the invariant of the dynamic class of self;
+    INV(expr)[.prefix][~excl]* that of another object.  Exclusions are inherited by nested tokens."""
     out = []
     for c in clauses:
-        if c.text == 'INV' or c.text.startswith('INV.') or c.text.startswith('INV~'):
+        m = re.match(r'^INV(\((.*)\))?(\.[A-Za-z_.]+)?((~[A-Za-z_.]+)*)$', c.text, re.S)
+        if not m:
+            out.append(c)
+            continue
+        inner = m.group(2)
+        pre = m.group(3)[1:] if m.group(3) else None
+        excl = [e for e in (m.group(4) or '').split('~') if e] + list(inherited)
+        if inner is None:
             cls = dyn_cls
-            pre = c.text[4:] if c.text.startswith('INV.') else None
-            exc = c.text[4:] if c.text.startswith('INV~') else None
-            for ic in specmod.class_inv(run.repo, cls, pre, exc):
-                out.append(specmod.Clause(ic.text, ic.props or c.props, 'inv.' + (ic.name or '')))
-        elif c.text.startswith('INV('):
-            # INV(expr)[.prefix | ~prefix]: invariant of another object
-            m = re.match(r'^INV\((.*)\)([.~][A-Za-z_.]+)?$', c.text, re.S)
-            inner = m.group(1)
-            flt = m.group(2) or ''
+            label = 'inv.'
+        else:
             v = eval_expr_in(run, inner, env)
             cls = run.deref(v).cls
-            pre = flt[1:] if flt.startswith('.') else None
-            exc = flt[1:] if flt.startswith('~') else None
-            for ic in specmod.class_inv(run.repo, cls, pre, exc):
-                txt = re.sub(r'\bself\b', '(' + inner + ')', ic.text)
-                out.append(specmod.Clause(txt, ic.props or c.props, 'inv(%s).%s' % (inner, ic.name or '')))
-        else:
-            out.append(c)
-    if any(c.text.startswith('INV') and re.match(r'^INV(\(|$|[.~])', c.text) for c in out):
-        return expand(run, out, env, dyn_cls)
+            label = 'inv(%s).' % inner
+        sub = []
+        for ic in specmod.class_inv(run.repo, cls, pre, excl or None):
+            txt = ic.text if inner is None else re.sub(r'\bself\b', '(' + inner + ')', ic.text)
+            sub.append(specmod.Clause(txt, ic.props or c.props, label + (ic.name or '')))
+        out.extend(expand(run, sub, env, dyn_cls, inherited=excl))
     return out
 
 
